@@ -42,8 +42,8 @@ def prog_key(progs):
 
 
 def make_cases(ctx, scheds, thorough):
-    """schedules -> driver cases.  thorough: every schedule on every concrete kind of its (kind, origin), targeted
-    ones with 2, 4, 8 and 16 goroutines, the others with two of these.  quick: targeted schedules on every concrete
+    """schedules -> driver cases.  thorough: targeted schedules on every concrete kind of their (kind, origin) with
+    2, 4, 8 and 16 goroutines, the others on two concrete kinds / goroutine counts rotating with the seed.  quick: targeted schedules on every concrete
     kind with 8 goroutines (and 2 on one kind); the others on one concrete kind and one goroutine count, both
     rotating with the seed."""
     cases, seen = [], set()
@@ -58,10 +58,10 @@ def make_cases(ctx, scheds, thorough):
             continue
         idx += 1
         plan = []
-        if thorough:
-            for ck in cks:
-                idx += 1
-                plan += [(ck, n) for n in (NS if targeted else [NS[idx % 4], NS[(idx + 2) % 4]])]
+        if thorough and targeted:
+            plan = [(ck, n) for ck in cks for n in NS]
+        elif thorough:
+            plan = [(cks[idx % len(cks)], NS[idx % 4]), (cks[(idx + 1) % len(cks)], NS[(idx + 2) % 4])]
         elif targeted:
             plan = [(ck, 8) for ck in cks] + [(cks[idx % len(cks)], 2)]
         else:
@@ -69,8 +69,8 @@ def make_cases(ctx, scheds, thorough):
         glob = origin == "global"
         for ck, n in plan:
             cases.append(dict(mode="race", kind=kind, ckind=ck, origin=origin, progs=progs, n=n, seed=ctx.seed,
-                              trials=(3 if glob else (150 if thorough else 25)),
-                              procs=((16 if thorough else 4) if glob else (2 if thorough else 1)),
+                              trials=(3 if glob else (40 if thorough else 25)),
+                              procs=((6 if thorough else 4) if glob else (2 if thorough else 1)),
                               targeted=targeted))
     return cases
 
